@@ -5,7 +5,7 @@
     [executing s] those inside LoadTarget or inside Evaluate but outside EvaluateTargets, [held s l] =
     enters - exits performed by l's goroutine. *)
 From Coq Require Import List Arith Bool.
-From Dawn Require Import Runner.Model Runner.Lemmas Runner.Core Runner.Proofs_C09.
+From Dawn Require Import Runner.Model Runner.Lemmas Runner.Core Runner.Proofs_C09 Runner.Proofs_C05.
 
 Theorem slot_conservation : forall cfg s, reachable cfg s -> cap s + holders s = c_limit cfg.
 Proof. exact Proofs_C09.slot_conservation. Qed.
@@ -29,3 +29,9 @@ Theorem balanced_at_end : forall cfg s, reachable cfg s -> finished s = true ->
   cap s = c_limit cfg /\ forall l, nenter s l = nexit s l.
 Proof. exact Proofs_C09.balanced_at_end. Qed.
 Print Assumptions balanced_at_end.
+
+(* waiting on dependencies holds no slot, so a build makes progress even with a limit of one *)
+Theorem limit_one_completes : forall cfg s, c_limit cfg = 1 -> reachable cfg s -> finished s = false ->
+  exists t, step cfg s t <> None.
+Proof. exact Proofs_C05.limit_one_completes. Qed.
+Print Assumptions limit_one_completes.
